@@ -5,6 +5,7 @@
 From Coq Require Import List NArith ZArith.
 From TarsV Require Import Base.Hex Gen.Consts Select.Selectors Select.Hist Select.WeightProofs Select.SelProofs Select.RingProofs Select.Manager Select.ManagerProofs.
 From TarsV Require Xlate.ConHashEquiv.
+From TarsV Require Xlate.ChWeightEquiv.
 Import ListNotations.
 
 (* deterministic: a hash-routed selection does not change the selector and does not depend on any random draw *)
@@ -110,3 +111,9 @@ Theorem C14_manager_refresh_installed : forall order down m answer,
   In e (m_eps (mgr_refresh_h order down m answer)) <-> In e answer /\ is_down down e = false.
 Proof. exact ManagerProofs.mgr_refresh_h_installed. Qed.
 Print Assumptions C14_manager_refresh_installed.
+
+(* the manager's enableWeight(), as the CURRENT source has it (Gen/Translated.v), is the comparison weight_mode ends with *)
+Theorem C14_manager_enableWeight_from_source : forall e0 l, weight_mode (e0 :: l) = true <->
+  (forall e, In e (e0 :: l) -> wty e = wty e0) /\ Gen.Translated.tr_mgr_enableWeight (wty e0) = Xlate.GoSem.Return true.
+Proof. exact Xlate.ChWeightEquiv.weight_mode_enableWeight. Qed.
+Print Assumptions C14_manager_enableWeight_from_source.
